@@ -281,16 +281,17 @@ func vfRunC19C(ctx *vfCtx, c vfCaseC19C) {
 // ---- (c) extended requests ----------------------------------------------------------------------------
 
 type vfCaseC19E struct {
-	Kind  string // os | rs
-	Alloc bool
-	Names []string // extended request names, each followed by a STAT probe
+	Kind     string // os | rs
+	Alloc    bool
+	ReadOnly bool     // os server created with ReadOnly(): refusals are decided before the request is served (seed C19-b)
+	Names    []string // extended request names, each followed by a STAT probe
 	HOpts vfHOpts
 }
 
 func vfRunC19E(ctx *vfCtx, c vfCaseC19E) {
 	baseline := vfPkgGoroutineIDs()
 	sftp.VfResetGlobals()
-	ps := vfStartProg(ctx, vfSrvCfg{Kind: c.Kind, Alloc: c.Alloc, HOpts: c.HOpts}, 1, 1)
+	ps := vfStartProg(ctx, vfSrvCfg{Kind: c.Kind, Alloc: c.Alloc, ReadOnly: c.ReadOnly, HOpts: c.HOpts}, 1, 1)
 	defer ps.cleanup()
 	send := func(p *vfPkt) *vfPkt {
 		ps.reqs = append(ps.reqs, p)
@@ -342,7 +343,7 @@ func vfRunC19E(ctx *vfCtx, c vfCaseC19E) {
 	}
 	ps.srv.Hangup(ctx, "C19")
 	vfCheckNoLeak(ctx, "C19/leak", baseline)
-	ctx.Class("server=" + c.Kind)
+	ctx.Class(fmt.Sprintf("server=%s readonly=%v", c.Kind, c.ReadOnly))
 }
 
 // ---- Sync without the extension --------------------------------------------------------------------------
@@ -432,12 +433,13 @@ func TestVerifC19(t *testing.T) {
 		defer vfScaleChecks(4)()
 		vfDriveSub(t, "extended", vfProp[vfCaseC19E]{ID: "C19", Run: vfRunC19E, Gen: func(rt *rapid.T) vfCaseC19E {
 			cfg := vfGenSrvCfg(rt)
+			vfMaybeReadOnly(rt, &cfg)
 			names := rapid.SliceOfN(rapid.SampledFrom([]string{vfExtStatVFS, vfExtPosixRename, vfExtHardlink, vfExtFsync, "", "statvfs@openssh.co", "STATVFS@openssh.com",
 				"statvfs@openssh.com ", " statvfs@openssh.com", "\xff\xfe", "fstatvfs@openssh.com", "lsetstat@openssh.com", "x"}), 1, 6).Draw(rt, "names")
 			if rapid.IntRange(0, 20).Draw(rt, "huge") == 0 {
 				names = append(names, string(bytes.Repeat([]byte("e"), 70000)))
 			}
-			return vfCaseC19E{Kind: cfg.Kind, Alloc: cfg.Alloc, Names: names, HOpts: cfg.HOpts}
+			return vfCaseC19E{Kind: cfg.Kind, Alloc: cfg.Alloc, ReadOnly: cfg.ReadOnly, Names: names, HOpts: cfg.HOpts}
 		}})
 	})
 	t.Run("sync", func(t *testing.T) {
